@@ -44,6 +44,7 @@ __CPROVER_ensures(g_pos_def == ((idx == g_c && fn < 0 && fn != FN_SUB) ? g_hi - 
 #define W_STATE (0 <= g_s && g_s < g_ns && CELL_OF_STATE(g_s) == g_c)
 /* the state set lists every state once [A: compile time]: no other state maps to the witness cell */
 #define ONLY(s) (!((s) < g_ns && (s) != g_s) || CELL_OF_STATE(s) != g_c)
+#if !UNIT_FCT_CTOR
 void build_table(void)
 __CPROVER_requires(0 <= g_nt && g_nt <= CAP && 0 <= g_ns && g_ns <= CAP && g_lo == 0 && g_hi == 0 && g_pos_i == NONE && g_pos_j == NONE && g_pos_sub == NONE && g_pos_def == NONE)
 __CPROVER_requires(__CPROVER_forall { int t; (0 <= t && t < CAP) ==> (0 <= g_src_id[t] && g_src_id[t] < 100000 && 0 <= g_state_id[t] && g_state_id[t] < 100000) })   /* ids are small non-negative numbers [A: compile time] */
@@ -55,3 +56,25 @@ __CPROVER_ensures(g_pos_i != NONE && g_pos_j != NONE && g_pos_j < g_pos_i)      
 __CPROVER_ensures((g_composite[g_s] && !g_deferred[g_s] && !g_state_is_fsm[g_s]) ==> (g_pos_sub != NONE && g_pos_sub < g_pos_j))   /*@ob C01,C07.forwarding-to-the-submachine-is-tried-before-every-row */
 __CPROVER_ensures(!(g_composite[g_s] && !g_deferred[g_s]) ==> (g_pos_def != NONE && g_pos_def > g_pos_i))           /*@ob C01,C05.default-cell-comes-after-every-row */
 ;
+#endif
+
+/* ---- the constructor itself: rows first (init_cell, push_front), then the per-state cells (default_init_cell) - the order that makes the
+   forwarding cell of a composite state end up in FRONT of its rows and the default cell BEHIND them ---- */
+#if UNIT_FCT_CTOR
+extern int g_ph;
+void rows_phase(void)           /* for_each<filter_view<Stt, is_base_of<...>>>(init_cell(this)) : loop 1 of the unit above */
+__CPROVER_requires(g_ph == 0)                                                     /*@ob C01,C07.rows-are-registered-before-the-per-state-cells */
+__CPROVER_assigns(g_ph)
+__CPROVER_ensures(g_ph == 1)
+;
+void states_phase(void)         /* for_each<state set>(default_init_cell<Event>(this, entries)) : loop 2 of the unit above */
+__CPROVER_requires(g_ph == 1)                                                     /*@ob C01,C07.rows-are-registered-before-the-per-state-cells */
+__CPROVER_assigns(g_ph)
+__CPROVER_ensures(g_ph == 2)
+;
+void fct_ctor(void)
+__CPROVER_requires(g_ph == 0)
+__CPROVER_assigns(g_ph)
+__CPROVER_ensures(g_ph == 2)                                                                               /*@ob C01.both-phases-run-once-in-this-order */
+;
+#endif
